@@ -11,6 +11,7 @@
   (`lastLeafIndex` of an empty file: `0 - 1`) is modelled. Core Lean only.
 -/
 import SiaModel.Merkle.Rhp
+import SiaModel.Prim.GoSem
 set_option linter.unusedVariables false
 
 namespace Sia.SP
@@ -97,10 +98,33 @@ def verifyV2NoGuard {H : Type} [HashOps H] [DecidableEq H] (leafIndex filesize :
     (proof : List H) (root : H) : Bool :=
   decide (storageProofRoot (leaf (padLeaf leaf64)) leafIndex filesize proof = root)
 
-/-! ## the prover side (specification) -/
+/-! ## the challenged leaf (consensus/state.go `State.StorageProofLeafIndex`) -/
 
 /-- number of 64-byte leaves of a file of `filesize` bytes (`StorageProofLeafIndex`'s `numLeaves`) -/
 def numLeaves (filesize : Nat) : Nat := if filesize % 64 ≠ 0 then filesize / 64 + 1 else filesize / 64
+
+
+/-- the loop `for i := 0; i < len(seed); i += 8 { _, r = bits.Div64(r, binary.BigEndian.Uint64(seed[i:]), numLeaves) }`
+over the four big-endian words of the 32-byte seed, from word `k` on (`bits.Div64` panics on a zero
+divisor and on `numLeaves ≤ r`) -/
+def leafIndexLoop (seed : ByteArray) (numLeaves : Nat) : Nat → Nat → Except String Nat
+  | 0, r => .ok r
+  | fuel + 1, r => do
+      let qr ← Go.bits_Div64 r (readBe64 seed (8 * (3 - fuel))) numLeaves
+      leafIndexLoop seed numLeaves fuel qr.2
+
+/-- `StorageProofLeafIndex` after `seed := hashAll(windowID, fcid)`: number of leaves rounded up,
+`0` for an empty file, otherwise the 256-bit seed reduced word by word -/
+def storageProofLeafIndexOfSeed (filesize : Nat) (seed : ByteArray) : Except String Nat :=
+  if numLeaves filesize = 0 then .ok 0
+  else leafIndexLoop seed (numLeaves filesize) 4 0
+
+/-- `State.StorageProofLeafIndex(filesize, windowID, fcid)`; `hash` is `hashAll` on the two 32-byte
+ids, i.e. BLAKE2b-256 of their concatenation -/
+def storageProofLeafIndex (hash : ByteArray → ByteArray) (filesize : Nat) (windowID fcid : ByteArray) : Except String Nat :=
+  storageProofLeafIndexOfSeed filesize (hash (windowID ++ fcid))
+
+/-! ## the prover side (specification) -/
 
 /-- the leaves of a file: 64-byte segments, the last one zero-padded -/
 def fileLeaves (file : ByteArray) : List ByteArray :=
